@@ -82,6 +82,18 @@ def planted(kind, mode):
         defvjp(f, lambda ans, x: lambda g: (g if (bad and mode == "rev") else g.T) * 3.0)
         defjvp(f, lambda g, ans, x: (g if (bad and mode == "fwd") else g.T) * 3.0)
         return f, (lambda rng: onp.array([[rng.uniform(0.3, 1.2) for _ in range(3)] for _ in range(3)])), None
+    if kind in ("tuple-output-sign", "tuple-output-factor", "ok-tuple-output"):
+        # a primitive whose OUTPUT is a tuple; the defect sits in one member of the forward (resp. reverse) rule
+        sg = -1.0 if kind == "tuple-output-sign" else 1.0
+        fc = 1.5 if kind == "tuple-output-factor" else 1.0
+
+        @primitive
+        def f(x):
+            return (onp.sin(x), onp.cos(x))
+        defvjp(f, lambda ans, x: lambda g: (fc if mode == "rev" else 1.0) * g[0] * anp.cos(x) - (sg if mode == "rev" else 1.0) * g[1] * anp.sin(x))
+        from autograd.builtins import tuple as _atuple       # (a traced tuple, so that the rule can be differentiated again)
+        defjvp(f, lambda g, ans, x: _atuple(((fc if mode == "fwd" else 1.0) * g * anp.cos(x), -(sg if mode == "fwd" else 1.0) * g * anp.sin(x))))
+        return f, (lambda rng: onp.array([rng.uniform(0.3, 1.2) for _ in range(3)])), None
     if kind in ("dropped-reduction", "ok-reduction"):
         @primitive
         def f(x):
@@ -241,7 +253,8 @@ def main():
     for kind in ("ok-scalar", "ok-matrix", "ok-reduction", "ok-complex", "factor", "sign", "transpose", "entry",
                  "dropped-reduction", "complex-conj", "ok-second-order", "second-order-factor", "second-order-sign",
                  "second-order-zero", "ok-cross-mode", "cross-mode-factor", "cross-mode-sign", "ok-tangent-helper",
-                 "tangent-helper-factor", "tangent-helper-sign", "nan-entry", "nan-scalar", "ok-zero-sum", "zero-sum-transpose", "zero-sum-permutation"):
+                 "tangent-helper-factor", "tangent-helper-sign", "nan-entry", "nan-scalar", "ok-zero-sum", "zero-sum-transpose", "zero-sum-permutation",
+                 "ok-tuple-output", "tuple-output-sign", "tuple-output-factor"):
         for mode in ("rev", "fwd"):
             for order in (1, 2):
                 f, point, both = planted(kind, mode)
